@@ -6,6 +6,6 @@ CONSTANTS
   P = 2
   C = 3
   MaxW = 3
-  EMIT = FALSE
-INVARIANTS Safe ResetEqualsFresh RunStops BadSpawnNoChange AliveSpawnRefused
+  EMIT = TRUE
+INVARIANTS Emit Safe ResetEqualsFresh RunStops BadSpawnNoChange AliveSpawnRefused
 CHECK_DEADLOCK FALSE
